@@ -28,6 +28,19 @@ MUTANTS = [
      "            if time < -tolerance or time > dt * recordsz + tolerance:\n                raise ValueError(\n                    f\"'time' ({disptime}) must be within the valid range of \"\n                    \"observations, including tolerance, the interval \"\n                    f\"[{-tolerance}, {dt * (recordsz - 1) + tolerance}]\"\n                )\n\n            # compute continuous shift\n            shift = time / dt\n\n            # directly read"),
     ("ins_sample_at_complement", "C02", 3000, INFRA,
      "            prev_exobs, next_exobs = extrap(\n                obs,\n                dt - dt * (shift % 1),", "            prev_exobs, next_exobs = extrap(\n                obs,\n                dt * (shift % 1),"),
+    ("hook_no_finalizer", "C16", 3000, INFRA,
+     "            self.__finalizer = weakref.finalize(\n                self, _detach_handles, self.__prehook_handle, self.__posthook_handle\n            )\n\n        else:",
+     "            self.__finalizer = None\n\n        else:"),
+    ("hook_posthook_eval_ignores_mode", "C16", 3000, INFRA,
+     "        if self.evalexec and not module.training:\n            return self._posthook_call(module, *args, **kwargs)",
+     "        if self.evalexec and not (module.training and self.trainexec):\n            return self._posthook_call(module, *args, **kwargs)"),
+    ("hook_manual_force_and", "C16", 3000, INFRA,
+     "        if self.registered or force:\n            if ignore_mode:", "        if self.registered and (force or not ignore_mode) or force and not ignore_mode:\n            if ignore_mode:"),
+    ("hook_deregister_keeps_prehandle", "C16", 3000, INFRA,
+     "        _detach_handles(self.__prehook_handle, self.__posthook_handle)\n        self.__prehook_handle = None",
+     "        _detach_handles(self.__posthook_handle)\n        self.__prehook_handle = None"),
+    ("clamp_min_only_when_both", "C16", 3000, "inferno/neural/hooks.py",
+     "                min=self.clampmin,\n                max=self.clampmax,", "                min=self.clampmin,\n                max=(self.clampmax if self.clampmin is None or self.clampmax >= 1 else None),"),
     ("resize_keeps_head", "C13", 3000, INFRA,
      "            slices[dim] = slice(tensor.shape[dim] - size, None)\n            return tensor[*slices]", "            slices[dim] = slice(None, size)\n            return tensor[*slices]"),
     ("resize_no_align", "C13", 3000, INFRA,
